@@ -17,6 +17,7 @@ import Snmp.Model.Table
 import Snmp.Model.Udp
 import Snmp.Model.Trap
 import Snmp.Model.Disco
+import Snmp.Model.Conc
 open Lean Snmp
 
 namespace Driver
@@ -443,6 +444,28 @@ def discoRun (j : Json) : Except String Json := do
     | .req e c b t iw => toJson (#[toJson "req", toJson (toHex e), toJson (toHex c), toJson b, toJson t, toJson iw] : Array Json)
   pure (Json.mkObj [("trace", toJson (trace.map wj))])
 
+/-! ### conc.run -/
+def linearProc (v3 : Bool) (res : Nat) : List Nat → Conc.Proc Nat Nat Nat Nat
+  | [] => .done res
+  | q :: qs =>
+    if v3 then .needDisco fun _ => .exchange q fun _ => linearProc v3 res qs
+    else .exchange q fun _ => linearProc v3 res qs
+
+def concRun (j : Json) : Except String Json := do
+  let psJ ← (← j.getObjVal? "procs").getArr?
+  let ps ← psJ.toList.mapM fun p => do
+    let v3 ← p.getObjValAs? Bool "v3"
+    pure (linearProc v3 (← getNat p "res") (← getNats p "reqs"))
+  let sched ← getNats j "schedule"
+  let s := Conc.runSched (fun q => q) 0 (Conc.start ps) sched
+  let log := s.log.map fun e => match e.2 with
+    | .probe => toJson (#[toJson e.1, toJson "probe"] : Array Json)
+    | .req q => toJson (#[toJson e.1, toJson q] : Array Json)
+  let fin := s.procs.map fun x => match x.1 with
+    | .finished r => toJson r
+    | _ => Json.null
+  pure (Json.mkObj [("log", toJson log), ("finished", toJson fin)])
+
 def handle (j : Json) : Except String Json := do
   let op ← j.getObjValAs? String "op"
   match op with
@@ -458,6 +481,7 @@ def handle (j : Json) : Except String Json := do
   | "ops.run" => opsRun j
   | "cfg.run" => cfgRun j
   | "py.wrap" => pyWrap j
+  | "conc.run" => concRun j
   | "disco.run" => discoRun j
   | "trap.run" => trapRun j
   | "udp.run" => udpRun j
